@@ -50,6 +50,8 @@ def run(w, keys, timeout_ms=solve.DEFAULT_TIMEOUT_MS, verbose=True):
             r = lemma_result(w, k[7:])
         else:
             r = contracts.verify_function(w, k)
+        if getattr(r, "skipped", False):
+            continue
         for m in w.contract_modules:
             h = getattr(m, "prepare", None)
             if h:
